@@ -243,8 +243,16 @@ pub fn record(seed: u64, tier: &str, out: &str) {
         record_n::<2>(&mut rng, &mut t, ops);
         record_n::<3>(&mut rng, &mut t, ops);
         record_n::<10>(&mut rng, &mut t, ops);
-        runs += 4;
+        // capacities around internal block sizes an implementation might use (4-word, 16-word blocks) and beyond
+        record_n::<5>(&mut rng, &mut t, ops / 3);
+        record_n::<17>(&mut rng, &mut t, ops / 8);
+        runs += 6;
     }
+    record_n::<4>(&mut rng, &mut t, ops / 3);
+    record_n::<7>(&mut rng, &mut t, ops / 3);
+    record_n::<16>(&mut rng, &mut t, ops / 8);
+    record_n::<33>(&mut rng, &mut t, ops / 10);
+    runs += 4;
     let ev = t.finish();
     println!("{}", json!({"events": ev, "runs": runs}));
 }
